@@ -201,30 +201,36 @@ def run(ctx: Ctx):
     cases = []
     for f in sorted((VERIF / "corpus" / "C13").glob("*.json")):
         cases.append(("corpus:" + f.name, json.loads(f.read_text())["case"]))
-    depth = ctx.scale(3, 4)
-    ex_types = ["dns-client"] if not ctx.thorough else ["dns-client", "terminal", "ntp-client"]
-    for t in ex_types:
-        for durs in ([(0, 0), (1, 2)] if not ctx.thorough else [(0, 0), (1, 2), (2, 1)]):
+    # bounded-exhaustive: every word of the given length over {7 lifecycle requests, tick, shutdown, startup}
+    if not ctx.thorough:
+        plan = [("dns-client", 3, [(0, 0), (1, 2)])]
+    else:
+        plan = [("dns-client", 4, [(0, 0), (1, 2)]), ("terminal", 3, [(0, 0), (2, 1)]), ("ntp-client", 3, [(1, 1)])]
+    for t, depth, dur_list in plan:
+        for durs in dur_list:
             for k, c in enumerate(rig.exhaustive_cases(depth, t, durs)):
-                cases.append((f"exh:{t}:{durs}:{k}", c))
-    n = ctx.scale(250, 6000)
+                cases.append((f"exh:{t}:{depth}:{durs}:{k}", c))
+    n = ctx.scale(250, 5000)
     rng = ctx.rng.fork("svc")
     for k in range(n):
         cases.append((f"gen:{k}", rig.gen_case(rng, max_ops=ctx.scale(30, 60))))
 
-    results, lines_all, bounds = [], [], []
-    for name, case in cases:
-        res = rig.run_case(case, guards)
-        bounds.append((len(lines_all), len(res["lines"])))
-        lines_all += res["lines"] + ["reset"]
-        results.append(res)
-    model_all = run_driver(EXE, lines_all, timeout=3000)
     agree = 0
-    for (name, case), res, (st, ln) in zip(cases, results, bounds):
-        model = model_all[st:st + ln]
-        if _check_case(ctx, name, case, res, model, guards):
-            agree += 1
-            if name.startswith("gen:"):
-                ctx.sample({"case": name, "node": case["node"], "lines": [l for l in res["lines"] if l != "dump"][10:18],
-                            "answers": [m for q, m in zip(res["lines"], model) if q != "dump"][10:18]}, cap=3)
+    CHUNK = 3000  # one driver run per chunk (bounds the memory held by the state lines)
+    for c0 in range(0, len(cases), CHUNK):
+        chunk = cases[c0:c0 + CHUNK]
+        results, lines_all, bounds = [], [], []
+        for name, case in chunk:
+            res = rig.run_case(case, guards)
+            bounds.append((len(lines_all), len(res["lines"])))
+            lines_all += res["lines"] + ["reset"]
+            results.append(res)
+        model_all = run_driver(EXE, lines_all, timeout=3000)
+        for (name, case), res, (st, ln) in zip(chunk, results, bounds):
+            model = model_all[st:st + ln]
+            if _check_case(ctx, name, case, res, model, guards):
+                agree += 1
+                if name.startswith("gen:"):
+                    ctx.sample({"case": name, "node": case["node"], "lines": [l for l in res["lines"] if l != "dump"][10:18],
+                                "answers": [m for q, m in zip(res["lines"], model) if q != "dump"][10:18]}, cap=3)
     ctx.oblige("rig:R-svc agrees on every trace", "correspondence", agree == len(cases), f"{len(cases) - agree} of {len(cases)} traces disagree")
